@@ -51,6 +51,9 @@ var (
 
 func nowNs() int64 {
 	if core.Active() {
+		// reading the clock is a scheduling point: the thread may be descheduled between the
+		// statement before and this read, and ticks may pass meanwhile
+		core.Yield(core.KLoad, nil)
 		return core.Now()
 	}
 	Reads++
